@@ -254,6 +254,20 @@ Section RES.
                       | None => []
                       end |}.
 
+  (* ------------------------------------------------------ well-formedness *)
+  Definition name_ok_res (s : str) : bool :=
+    is_name_line s && forallb tokch s && negb (contains (S "TOTALTIME") s).
+  Definition wf_section (s : section) : bool :=
+    match s_vars s with [] => false | _ => true end
+    && forallb (fun v => name_ok_res (fst v) && Nat.ltb 0 (snd v)) (s_vars s)
+    && match s_rows s with [] => false | _ => true end
+    && forallb (fun r => Nat.eqb (length (snd r)) (sum (map snd (s_vars s)))) (s_rows s).
+  Definition wf_layout (lay : layout) : bool :=
+    Nat.ltb 0 (l_wc lay) && Nat.ltb 0 (l_w lay) && forallb is_ws (l_pad lay).
+  Definition wf_content (c : content) : bool :=
+    wf_section (c_nodal c)
+    && match c_elemental c with Some s => wf_section s | None => true end.
+
   (* ------------------------------------------------------------ steps *)
   (* read_directory: files = glob('*.res.*'); one file is taken as it is;
      several are ordered by the integer at the end of the name; time series
